@@ -55,12 +55,11 @@ def reviews : List Review := [
   ⟨.cast, "db/db.go:DB.GetSSHHostPrincipals", "cast.Int64", 1, .guarded "ValidBefore of a stored certificate that this CA issued; issued certificates passed the validity validator"⟩,
   ⟨.cast, "api/api.go:LogSSHCertificate", "cast.Int64", 2, .guarded "certificate just issued by this CA (passed sshCertValidityValidator: ValidBefore ≤ now + max + backdate)"⟩,
   ⟨.cast, "api/ssh.go:SSHSign", "cast.Int64", 2, .guarded "certificate just issued by this CA"⟩,
-  ⟨.cast, "api/sshRekey.go:SSHRekey", "cast.Int64", 2, .guarded "old certificate already authorized by SSHPOP.authorizeToken (validity window checked with safe conversions, signature by this CA)"⟩,
-  ⟨.cast, "api/sshRenew.go:SSHRenew", "cast.Int64", 2, .guarded "old certificate already authorized by SSHPOP.authorizeToken"⟩,
-  ⟨.cast, "authority/ssh.go:Authority.renewSSH", "cast.Int64", 1, .guarded "difference of the bounds of an authorized, CA-issued certificate (ValidBefore ≥ ValidAfter, both < 2^63)"⟩,
-  ⟨.cast, "authority/ssh.go:Authority.renewSSH", "cast.Uint64", 2, .notClient "wall clock ± configured backdate/duration"⟩,
-  ⟨.cast, "authority/ssh.go:Authority.rekeySSH", "cast.Int64", 1, .guarded "as renewSSH"⟩,
-  ⟨.cast, "authority/ssh.go:Authority.rekeySSH", "cast.Uint64", 2, .notClient "wall clock ± configured backdate/duration"⟩,
+  ⟨.cast, "api/sshRekey.go:SSHRekey", "cast.Int64", 2, .guarded "reached only after RekeySSH succeeded: SSHPOP.authorizeToken gives ValidAfter ≤ now (safe conversion) and sshCertificateDuration gives ValidBefore − ValidAfter ≤ 292 years, so both bounds < 2^63"⟩,
+  ⟨.cast, "api/sshRenew.go:SSHRenew", "cast.Int64", 2, .guarded "as SSHRekey, after RenewSSH succeeded"⟩,
+  ⟨.cast, "authority/ssh.go:sshCertificateDuration", "cast.Int64", 1, .guarded "b334f43: argument tested ≤ MaxInt64 / 1e9 on the line before; ValidBefore < ValidAfter and longer periods return an error (400) — before that fix a forever-valid certificate accepted by SSHPOP panicked here"⟩,
+  ⟨.cast, "authority/ssh.go:Authority.renewSSH", "cast.Uint64", 2, .guarded "wall clock − backdate and wall clock + duration − backdate with 0 ≤ duration ≤ 292 years (sshCertificateDuration): both after 1970"⟩,
+  ⟨.cast, "authority/ssh.go:Authority.rekeySSH", "cast.Uint64", 2, .guarded "as renewSSH"⟩,
   ⟨.cast, "authority/provisioner/controller.go:DefaultAuthorizeSSHRenew", "cast.SafeInt64", 2, .guarded "Safe variant (fix 763c7e1): out-of-range bounds are answered 401"⟩,
   ⟨.cast, "authority/provisioner/sign_ssh_options.go:sshDefaultDuration.Modify", "cast.Uint64", 3, .notClient "wall clock and configured durations"⟩,
   ⟨.cast, "authority/provisioner/sign_ssh_options.go:sshLimitDuration.Modify", "cast.Uint64", 3, .notClient "wall clock, configured durations, NotAfter of the verified credential"⟩,
